@@ -367,7 +367,12 @@ Proof.
 Qed.
 
 Lemma hs_header_enc_len h e : enc c_hs_header h = Some e -> length e = 12%nat.
-Proof. destruct h as [t [l [ms [fo fl]]]]. intro H. cbn in H. inversion H. reflexivity. Qed.
+Proof.
+  destruct h as [t [l [ms [fo fl]]]]. intro H. change (t, (l, (ms, (fo, fl)))) with (mk_hshdr t l ms fo fl) in H.
+  rewrite hs_header_enc in H.
+  assert (He : e = be_enc 1 t ++ be_enc 3 l ++ be_enc 2 ms ++ be_enc 3 fo ++ be_enc 3 fl) by congruence.
+  subst e. rewrite !app_length, !be_enc_length. reflexivity.
+Qed.
 
 Lemma msg_type_byte m : msg_type m < 256.
 Proof. destruct m; cbn; lia. Qed.
